@@ -14,6 +14,7 @@ from __future__ import annotations
 
 from math import inf
 
+import pynguin.configuration as config
 import pynguin.ga.computations as ff
 import pynguin.ga.coveragegoals as bg
 import pynguin.ga.fitness_metrics as fm
@@ -157,6 +158,65 @@ def _goals(view, sts, cbits) -> bool:
     return True
 
 
+class _StubArchive:
+    """Stands for the CoverageArchive of WholeSuiteAlgorithm: the goals the population covers move to
+    ``covered_goals`` on ``update`` (decided by the state oracle, not by the code under test)."""
+
+    def __init__(self, goal_functions, covered_now):
+        self.uncovered_goals = list(goal_functions)
+        self.covered_goals = []
+        self._covered_now = covered_now
+
+    def update(self, _solutions):
+        for g in list(self.uncovered_goals):
+            if self._covered_now(g):
+                self.uncovered_goals.remove(g)
+                self.covered_goals.append(g)
+
+
+class _Suite(ft.StubSuite):
+    def invalidate_cache(self):
+        pass
+
+
+def _whole_suite_archive(view, sts, cbits) -> bool:
+    """WholeSuiteAlgorithm._update_archive restricts the suite fitness to the goals the archive has not covered yet.
+    With a population of one suite the archive covers exactly what the suite covers, so the restricted fitness of that
+    suite is its unrestricted fitness (covered goals contribute 0 either way) and it is 0 exactly when everything is
+    covered."""
+    from pynguin.ga.algorithms.wholesuitealgorithm import WholeSuiteAlgorithm
+
+    trace = ft.build_trace(view, sts, cbits)
+    ex = ft.StubExecutor(view.sp)
+    suite = _Suite([ft.StubCase(ft.result_of(trace))])
+    st_of = dict(zip(view.preds, sts))
+    bit_of = dict(zip(view.code_objects, cbits))
+
+    def covered_now(f):
+        goal = f.goal
+        if goal.is_branch:
+            st = st_of[goal.predicate_id]
+            return ft.taken_true(st) if goal.value else ft.taken_false(st)
+        return bool(bit_of[goal.code_object_id])
+
+    fns = _goal_functions(view, ex)
+    func = ff.BranchDistanceTestSuiteFitnessFunction(ex)
+    before = func.compute_fitness(suite)
+    algo = object.__new__(WholeSuiteAlgorithm)
+    algo._archive = _StubArchive(fns, covered_now)
+    algo._population = [suite]
+    algo._test_suite_fitness_functions = [func]
+    old = config.configuration.search_algorithm.use_archive
+    config.configuration.search_algorithm.use_archive = True
+    try:
+        algo._update_archive()
+    finally:
+        config.configuration.search_algorithm.use_archive = old
+    after = func.compute_fitness(suite)
+    n_goals, n_cov = _oracle(view, sts, cbits)
+    return after == before and (after == 0.0) == (n_cov == n_goals)
+
+
 def _goal_functions(view, ex):
     pool = bg.BranchGoalPool(view.sp)
     fns = list(bg.create_branch_coverage_fitness_functions(ex, pool))
@@ -251,6 +311,22 @@ def h_goals(v: int, klo: int, khi: int, s0: int, n0: int, a0: int, k0: int, s1: 
     view = _view(v)
     sts = _states(view, [(s0, n0, a0, k0), (s1, n1, a1, k1), (s2, n2, a2, k2), (s3, n3, a3, k3)])
     return reach(_goals(view, sts, [c0, c1, c2]))
+
+
+def h_whole_suite_archive(v: int, klo: int, khi: int, s0: int, n0: int, a0: int, k0: int, s1: int, n1: int, a1: int, k1: int,
+                          s2: int, n2: int, a2: int, k2: int, s3: int, n3: int, a3: int, k3: int,
+                          c0: bool, c1: bool, c2: bool) -> bool:
+    """
+    pre: 0 <= v <= 9 and 0 <= klo <= khi <= 6
+    pre: 0 <= s0 <= 3 and 1 <= n0 <= 1000 and 1 <= a0 <= 2**60 and klo <= k0 <= khi
+    pre: 0 <= s1 <= 3 and 1 <= n1 <= 1000 and 1 <= a1 <= 2**60 and klo <= k1 <= khi
+    pre: 0 <= s2 <= 3 and 1 <= n2 <= 1000 and 1 <= a2 <= 2**60 and klo <= k2 <= khi
+    pre: 0 <= s3 <= 3 and 1 <= n3 <= 1000 and 1 <= a3 <= 2**60 and klo <= k3 <= khi
+    post: _
+    """
+    view = _view(v)
+    sts = _states(view, [(s0, n0, a0, k0), (s1, n1, a1, k1), (s2, n2, a2, k2), (s3, n3, a3, k3)])
+    return reach(_whole_suite_archive(view, sts, [c0, c1, c2]))
 
 
 def h_classes(which: int, s0: int, n0: int, a0: int, k0: int, c0: bool, c1: bool, c2: bool) -> bool:
@@ -385,7 +461,7 @@ META = {
     "note": "Distances a/16 are decided in CrossHair's real-number float model (exact rationals); the IEEE rounding of "
             "normalise(v) = v/(1+v) is covered by the separate IEEE lemma obligation and by the exact edge-value table. "
             "Trusts CPython 3.12.1, CrossHair's int/float(real)/dict models, z3.",
-    "functions": ["pynguin.ga.fitness_metrics.compute_branch_distance_fitness", "compute_branch_distance_fitness_is_covered",
+    "functions": ["pynguin.ga.algorithms.wholesuitealgorithm.WholeSuiteAlgorithm._update_archive (stub archive)", "pynguin.ga.fitness_metrics.compute_branch_distance_fitness", "compute_branch_distance_fitness_is_covered",
                   "_predicate_fitness", "normalise", "compute_branch_coverage", "compute_line_coverage",
                   "compute_line_coverage_fitness_is_covered", "compute_checked_coverage_statement_fitness_is_covered",
                   "analyze_results", "pynguin.ga.computations.{BranchDistanceTestSuiteFitnessFunction,"
@@ -453,6 +529,9 @@ def obligations(tier: str):
             obs.append(fam("goals", h_goals, name, 1))
     # predicates of two code objects with equal CDG node indices (approach levels must not mix code objects)
     obs.append(fam("goals", h_goals, "twins", 2))
+    # the archive-driven restriction of the whole-suite fitness (WholeSuiteAlgorithm._update_archive + restrict)
+    obs.append(fam("whole_suite_archive", h_whole_suite_archive, "seq", 2))
+    obs.append(fam("whole_suite_archive", h_whole_suite_archive, "box", 1))
     obs.append(fam("values", h_values, "nested", 2))
     obs.append(fam("is_covered", h_is_covered, "nested", 1))
     obs.append(fam("goals", h_goals, "nested", 2))
